@@ -3,6 +3,8 @@ import O2P.Model.Serve
 import O2P.Model.Upstream
 import O2P.Model.Sha256
 import O2P.Model.Base64
+import O2P.Model.Signed
+import O2P.Model.CookieJar
 /-!
   Driver glue for the Layer-A correspondence (`serve` op): decode Cfg / Req / Env from the
   `key=value` fields the harness recorded, run `O2P.serve`, print the canonical answer.
@@ -217,6 +219,24 @@ def opServe : Op
       decodeB64 := fun _ => stateParsed,
       constraintsOK := fun _ s => match constraints.find? (fun x => x.1 == sessKey s) with | some x => x.2 | none => false }
     let r := serve cfg env glue req
+    -- Layer-B cross-check on REAL bytes: whatever the store / CSRF loader accepted must validate in
+    -- the signed-cookie model (Lean HMAC-SHA256), and "no cookie" must agree with the jar model
+    let secret ← kStr c "secret"
+    let seedB := secret
+    let nowNs := env.now
+    let jar : O2P.Jar := req.cookies
+    let lbSession : Bool :=
+      match env.load1, (← kBool e "loadseen") with
+      | _, false => true
+      | .ok _, true =>
+        (match O2P.loadCookie jar cfg.cookieName with
+          | some (n, v) => (O2P.validate Sha.hmac n v seedB cfg.cookieExpire nowNs).isSome
+          | none => false)
+      | .noCookie, true => (O2P.loadCookie jar cfg.cookieName).isNone || redis && (jar.find? (fun p => p.1 == cfg.cookieName)).isNone
+      | .err, true => true
+    let lbCsrf : Bool := csrfs.all (fun x =>
+      req.cookies.any (fun ck => ck.1 == x.1 && (O2P.validate Sha.hmac ck.1 ck.2 seedB cfg.cookieExpire nowNs).isSome))
+    let lbTag := (if lbSession then "" else "LAYERB-SESSION-MISMATCH ") ++ (if lbCsrf then "" else "LAYERB-CSRF-MISMATCH ")
     -- render
     let sset := r.cookies.any (fun c => match c with | .setSession _ => true | _ => false)
     let cleared := r.cookies.any (fun c => match c with | .clearSession => true | _ => false)
@@ -244,7 +264,7 @@ def opServe : Op
     let red := match r.redeemedWith with
       | some (c, v) => s!"{hex c}:{hex v}"
       | none => "-"
-    pure s!"{r.status} {kindStr r.kind} loc={loc} S={b sset} D={d} C={lst cset} X={lst cdel} fwd={fwd} disc={disc} redeem={red}"
+    pure s!"{lbTag}{r.status} {kindStr r.kind} loc={loc} S={b sset} D={d} C={lst cset} X={lst cdel} fwd={fwd} disc={disc} redeem={red}"
   | _ => none
 
 def serveOps : List (String × Op) := [("serve", opServe)]
